@@ -173,8 +173,15 @@ def _run_case_inner(ctx, case):
             u = utxos[case['creator'] % len(utxos)]
             want_script = ref_scripts[u['address']]
             fee = 50000
-            t = wa.transaction_create([(_foreign(), u['value'] - fee)],
-                                      [(u['txid'], u['output_n'], u['key_id'], u['value'])], fee=fee,
+            spend = [u]
+            if case.get('two_inputs'):
+                # a second output of the same address: one spend with two inputs of one script
+                spend += [x for x in utxos if x['address'] == u['address'] and
+                          (x['txid'], x['output_n']) != (u['txid'], u['output_n'])][:1]
+                if len(spend) == 2:
+                    flags.add('two_inputs')
+            t = wa.transaction_create([(_foreign(), sum(x['value'] for x in spend) - fee)],
+                                      [(x['txid'], x['output_n'], x['key_id'], x['value']) for x in spend], fee=fee,
                                       **({'locktime': case['locktime']} if case.get('locktime') is not None else {}))
             if t.locktime == 0:
                 flags.add('locktime_zero')
@@ -182,7 +189,7 @@ def _run_case_inner(ctx, case):
                 flags.add('locktime_explicit')
         except Exception as e:
             bad('create_tx.raises', 'creating the spend raised %r' % e)
-        amount = u['value']
+        amount = [x['value'] for x in spend]
         try:
             rs = t.inputs[0].redeemscript
         except Exception as e:
@@ -190,10 +197,11 @@ def _run_case_inner(ctx, case):
         if rs != want_script:
             bad('redeemscript.reference', 'spend redeemscript %s, reference %s' % (rs.hex(), want_script.hex()))
         spk = _spk(case, want_script)
-        signed = set()
+        signed = [set() for _ in spend]          # distinct cosigners that signed, per input
         try:
             t.sign()
-            signed.add(creator)
+            for s_ in signed:
+                s_.add(creator)
         except Exception as e:
             bad('sign.raises', 'creator sign raised %r' % e)
         _judge(ctx, case, t, signed, m, spk, amount, 'creator', flags)
@@ -202,7 +210,8 @@ def _run_case_inner(ctx, case):
             j = h['signer'] % n
             wj = wallets[j]
             medium = h['medium']
-            if medium == 'raw' and len(signed) < m and ctx.known_active('C10-raw-handoff-loses-partial-signatures'):
+            if medium == 'raw' and min(len(s_) for s_ in signed) < m and \
+                    ctx.known_active('C10-raw-handoff-loses-partial-signatures'):
                 ctx.exclude('raw handoff of partially signed transaction')
                 medium = 'object'
             try:
@@ -212,7 +221,7 @@ def _run_case_inner(ctx, case):
                     t2 = wj.transaction_import(t.as_dict())
                 else:
                     t2 = wj.transaction_import_raw(t.raw_hex())
-                    if len(signed) < m:
+                    if min(len(s_) for s_ in signed) < m:
                         flags.add('raw_partial')
             except Exception as e:
                 ctx.refusal('import.%s.%s' % (medium, (type(e).__name__ + ':' + str(e))[:50]))
@@ -230,24 +239,32 @@ def _run_case_inner(ctx, case):
                 bad('import.changes_transaction:' + medium, 'the transaction imported by cosigner %d (%s) is not the '
                     'transaction that was exported: %s' % (j, medium, '; '.join(diff)[:400]))
             kf = None
-            if medium == 'raw' and 0 < len(signed) < m:
+            if medium == 'raw' and 0 < min(len(s_) for s_ in signed) < m:
                 kf = 'C10-raw-handoff-loses-partial-signatures'
+            only = h.get('only')
+            if only is not None and len(signed) < 2:
+                only = None
             try:
-                t2.sign()
+                if only is None:
+                    t2.sign()
+                else:
+                    # this cosigner signs ONE input only (Transaction.sign with index_n; the wallet-level sign()
+                    # always signs every input)
+                    from bitcoinlib.transactions import Transaction as _T
+                    k_ = only % len(signed)
+                    _T.sign(t2, [x for x in t2.inputs[k_].keys if x.is_private], k_)
+                    flags.add('uneven_signing')
             except Exception as e:
                 ctx.refusal('sign.%s' % (type(e).__name__ + ':' + str(e))[:60])
                 continue
-            if medium == 'raw' and 0 < len(signed) < m:
-                # what is demanded of a raw hand-off: earlier signatures survive. Judge with the full signer set.
-                signed_after = set(signed) | {j}
-            else:
-                signed_after = set(signed) | {j}
             if prev_medium and prev_medium != medium:
                 flags.add('mixed_media')
             prev_medium = medium
-            if j in signed:
+            if any(j in s_ for s_ in signed):
                 flags.add('repeat_signer')
-            signed = signed_after
+            for k_, s_ in enumerate(signed):
+                if only is None or k_ == only % len(signed):
+                    s_.add(j)
             t = t2
             _judge(ctx, case, t, signed, m, spk, amount, 'handoff %d (%s by %d)' % (step, medium, j), flags, kf=kf)
             if step >= 1 and m < n:
@@ -269,8 +286,10 @@ def _foreign():
 
 
 def _judge(ctx, case, t, signed, m, spk, amount, where, flags, kf=None):
+    """signed: list (per input) of sets of distinct cosigners; amount: list of input values"""
     from ref import wire, interp
-    enough = len(signed) >= m
+    fewest = min(len(s_) for s_ in signed)
+    enough = fewest >= m
     try:
         lib_ok = bool(t.verify())
     except Exception as e:
@@ -278,24 +297,32 @@ def _judge(ctx, case, t, signed, m, spk, amount, where, flags, kf=None):
     try:
         raw = t.raw()
         tx = wire.Tx.parse(raw)
-        ref_ok, why = interp.verify_input(tx, 0, spk, amount)
+        ref_ok, why = True, ''
+        if len(tx.vin) != len(signed):
+            ref_ok, why = False, 'input count %d' % len(tx.vin)
+        for k_ in range(len(signed)):
+            if ref_ok:
+                ok_k, why_k = interp.verify_input(tx, k_, spk, amount[k_])
+                if not ok_k:
+                    ref_ok, why = False, 'input %d: %s' % (k_, why_k)
     except Exception as e:
         ref_ok, why = False, 'unserialisable: %r' % e
+    counts = [len(s_) for s_ in signed]
     if lib_ok and not ref_ok:
-        ctx.disc('verified.but_invalid', '%s: verify() True with %d of %d signers, but the consensus interpreter rejects '
-                 'the spend of the funded script: %s' % (where, len(signed), m, why), case, kf=kf)
+        ctx.disc('verified.but_invalid', '%s: verify() True with %r of %d signers per input, but the consensus '
+                 'interpreter rejects the spend of the funded script: %s' % (where, counts, m, why), case, kf=kf)
         return
     if lib_ok and not enough:
-        ctx.disc('verified.too_few_signers', '%s: verify() True with only %d distinct signers (m=%d)' %
-                 (where, len(signed), m), case, kf=kf)
+        ctx.disc('verified.too_few_signers', '%s: verify() True with only %r distinct signers per input (m=%d)' %
+                 (where, counts, m), case, kf=kf)
         return
     if enough and not lib_ok:
-        ctx.disc('not_verified.enough_signers', '%s: %d distinct cosigners signed (m=%d) but verify() is False '
-                 '(reference says %s)' % (where, len(signed), m, 'valid' if ref_ok else 'invalid: ' + why), case, kf=kf)
+        ctx.disc('not_verified.enough_signers', '%s: %r distinct cosigners signed (m=%d) but verify() is False '
+                 '(reference says %s)' % (where, counts, m, 'valid' if ref_ok else 'invalid: ' + why), case, kf=kf)
         return
     if enough and not ref_ok:
-        ctx.disc('invalid.enough_signers', '%s: %d distinct cosigners signed (m=%d), library verifies, but the '
-                 'serialised spend is rejected by the consensus interpreter: %s' % (where, len(signed), m, why), case,
+        ctx.disc('invalid.enough_signers', '%s: %r distinct cosigners signed (m=%d), library verifies, but the '
+                 'serialised spend is rejected by the consensus interpreter: %s' % (where, counts, m, why), case,
                  kf=kf)
         return
     # broadcast attempt
@@ -305,8 +332,8 @@ def _judge(ctx, case, t, signed, m, spk, amount, where, flags, kf=None):
     except Exception as e:
         pushed = False
     if pushed and not enough:
-        ctx.disc('pushed.too_few_signers', '%s: transaction was broadcast with %d of %d required signers' %
-                 (where, len(signed), m), case, kf=kf)
+        ctx.disc('pushed.too_few_signers', '%s: transaction was broadcast with %r of %d required signers per input' %
+                 (where, counts, m), case, kf=kf)
     if pushed:
         flags.add('pushed')
         if not ref_ok:
@@ -347,12 +374,14 @@ def _strategy(ctx):
         seeds = draw(st.lists(st.binary(min_size=16, max_size=16), min_size=n, max_size=n, unique=True))
         perms = [list(draw(st.permutations(list(range(n))))) for _ in range(n)]
         handoffs = draw(st.lists(st.fixed_dictionaries({'signer': st.integers(0, n - 1),
-                                                        'medium': st.sampled_from(['object', 'dict', 'raw'])}),
+                                                        'medium': st.sampled_from(['object', 'dict', 'raw']),
+                                                        'only': st.sampled_from([None, None, None, 0, 1])}),
                                  min_size=1, max_size=n + 1))
         afs = draw(st.one_of(st.none(), st.lists(st.booleans(), min_size=n, max_size=n)))
         locktime = draw(st.sampled_from([None, None, 0, 0, 1, 499999999, 500000000, 1700000000]))
         return {'kind': 'ceremony', 'n': n, 'm': m, 'witness_type': wt, 'seeds': [s.hex() for s in seeds],
                 'afs': afs, 'locktime': locktime, 'perms': perms,
+                'two_inputs': draw(st.sampled_from([False, False, True])),
                 'bulk': draw(st.sampled_from([0, 0, 2, 3])), 'bulk_change': draw(st.sampled_from([0, 0, 1])), 'creator': draw(st.integers(0, n - 1)), 'handoffs': handoffs,
                 'rng': draw(st.integers(0, 2 ** 31))}
     return cases()
